@@ -2,8 +2,14 @@ package main
 
 import (
 	"fmt"
+	"math/rand"
+	"os"
+	"os/exec"
+	"path/filepath"
 	"sort"
+	"strconv"
 	"strings"
+	"time"
 
 	"verif/harness/hlib"
 
@@ -86,9 +92,112 @@ func rectKey(r model3d.Rect) [6]float64 {
 	return [6]float64{r.MinVal.X, r.MinVal.Y, r.MinVal.Z, r.MaxVal.X, r.MaxVal.Y, r.MaxVal.Z}
 }
 
+// runRectSet runs the RectSet cases in a child process (the same binary): a
+// non-terminating newRectSetSolid recursion ends in a Go stack overflow, which
+// cannot be recovered in-process and would take every other case down with it.
+// The child reports the case it is working on in a progress file; if it dies,
+// that case is reported as "crash" and skipped on the next attempt.
 func runRectSet(c *hlib.Ctx) {
+	sub := c.Rng.Int63()
+	if os.Getenv("C04_RS_CHILD") != "" {
+		return // (not reached: main dispatches the child before run)
+	}
+	exe, err := os.Executable()
+	if err != nil {
+		c.Emit("c04 rs 0 0", "cannot-locate-harness-binary")
+		return
+	}
+	dir, err := os.MkdirTemp("", "c04rs")
+	if err != nil {
+		c.Emit("c04 rs 0 0", "cannot-create-temp-dir")
+		return
+	}
+	defer os.RemoveAll(dir)
+	var skip []string
+	for attempt := 0; attempt < 12; attempt++ {
+		outf := filepath.Join(dir, "out.txt")
+		prog := filepath.Join(dir, "progress.txt")
+		os.Remove(outf)
+		os.Remove(prog)
+		cmd := exec.Command(exe, "-seed", strconv.FormatInt(c.Seed, 10), "-n", strconv.Itoa(c.N), "-out", outf)
+		cmd.Env = append(os.Environ(), "C04_RS_CHILD="+strconv.FormatInt(sub, 10), "C04_RS_SKIP="+strings.Join(skip, ","),
+			"C04_RS_PROGRESS="+prog)
+		done := make(chan error, 1)
+		go func() { done <- cmd.Run() }()
+		var runErr error
+		select {
+		case runErr = <-done:
+		case <-time.After(300 * time.Second):
+			cmd.Process.Kill()
+			runErr = fmt.Errorf("timeout")
+		}
+		if runErr == nil {
+			data, _ := os.ReadFile(outf)
+			for _, line := range strings.Split(string(data), "\n") {
+				switch {
+				case line == "":
+				case strings.HasPrefix(line, "#stat "):
+					f := strings.Fields(line)
+					if len(f) == 3 {
+						n, _ := strconv.Atoi(f[2])
+						c.Stat(f[1], n)
+					}
+				case strings.HasPrefix(line, "#propfail "):
+					f := strings.SplitN(line, " ", 3)
+					if len(f) == 3 {
+						c.PropFail(f[1], f[2])
+					}
+				default:
+					parts := strings.SplitN(line, "\t", 2)
+					if len(parts) == 2 {
+						c.Emit(parts[0], parts[1])
+					}
+				}
+			}
+			return
+		}
+		data, _ := os.ReadFile(prog)
+		lines := strings.Split(strings.TrimSpace(string(data)), "\n")
+		last := strings.SplitN(lines[len(lines)-1], "\t", 2)
+		if last[0] == "" {
+			c.Emit("c04 rs 0 0", "rectset-child-failed-before-first-case")
+			return
+		}
+		if len(last) == 2 {
+			// the child died inside Solid()/Contains of this history
+			c.Emit(last[1]+" 0", "crash:RectSet.Solid()-or-Contains-killed-the-process(stack-overflow?)")
+		}
+		skip = append(skip, last[0])
+		c.Stat("c04.rectset.child_crashes", 1)
+	}
+	c.Stat("c04.rectset.child_gave_up_after_12_crashes", 1)
+}
+
+// rectSetChild is the body of the child process.
+func rectSetChild(c *hlib.Ctx) {
+	sub, _ := strconv.ParseInt(os.Getenv("C04_RS_CHILD"), 10, 64)
+	skip := map[string]bool{}
+	for _, s := range strings.Split(os.Getenv("C04_RS_SKIP"), ",") {
+		if s != "" {
+			skip[s] = true
+		}
+	}
+	progress := func(k int, head string) {
+		f, err := os.OpenFile(os.Getenv("C04_RS_PROGRESS"), os.O_APPEND|os.O_CREATE|os.O_WRONLY, 0o644)
+		if err == nil {
+			if head == "" {
+				fmt.Fprintf(f, "%d\n", k)
+			} else {
+				fmt.Fprintf(f, "%d\t%s\n", k, head)
+			}
+			f.Close()
+		}
+	}
+	c.Rng = rand.New(rand.NewSource(sub))
 	for k := 0; k < c.N/2+1; k++ {
-		nops := c.Rng.Intn(6)
+		progress(k, "")
+		crashed := skip[strconv.Itoa(k)]
+		nops := 1 + c.Rng.Intn(8)
 		if k < 2 {
 			nops = 0
 		}
@@ -105,7 +214,7 @@ func runRectSet(c *hlib.Ctx) {
 				}
 				r := model3d.NewRect(model3d.NewCoord3DArray(lo), model3d.NewCoord3DArray(hi))
 				kind := "a"
-				switch c.Rng.Intn(10) {
+				switch c.Rng.Intn(12) {
 				case 0, 1, 2:
 					kind = "r"
 				case 3:
@@ -169,6 +278,10 @@ func runRectSet(c *hlib.Ctx) {
 		nq := 12
 		var qs []string
 		var qbits strings.Builder
+		if crashed {
+			continue // already reported by the parent
+		}
+		progress(k, head)
 		msg := hlib.Guard(func() string {
 			solid := rs.Solid()
 			plain := make(model3d.JoinedSolid, len(rects))
@@ -183,6 +296,20 @@ func runRectSet(c *hlib.Ctx) {
 				}
 				if q == 0 {
 					p = [3]float64{}
+				} else if q%2 == 1 && len(rects) > 0 {
+					// a corner, face centre or interior point of a stored cell (often on a split plane)
+					r := rects[c.Rng.Intn(len(rects))]
+					lo, hi := r.MinVal.Array(), r.MaxVal.Array()
+					for a := 0; a < 3; a++ {
+						switch c.Rng.Intn(3) {
+						case 0:
+							p[a] = lo[a]
+						case 1:
+							p[a] = hi[a]
+						default:
+							p[a] = (lo[a] + hi[a]) / 2
+						}
+					}
 				}
 				got := solid.Contains(model3d.NewCoord3DArray(p))
 				want := len(plain) > 0 && plain.Contains(model3d.NewCoord3DArray(p))
